@@ -11,8 +11,8 @@ META = dict(
                 'on N symbolic integer items are compared with the reference interpreter (maximal runs of equal predicate value, by !=, closed at key completion, '
                 'no segment for an empty key); predicates return fresh tuples / run-time built strings so equality and identity differ. '
                 'A one-step form runs split_mux from an arbitrary stored predicate (NOTSET or a value) on one item.',
-    bounds=dict(quick='N <= 4 items, any integers; predicates v%3 tuple, v%2 string, v//3 tuple; contexts root, group_by(mod2), roll(2,2), roll(3,1), split',
-                thorough='N <= 6 (root), N <= 5 nested; same predicates and contexts'),
+    bounds=dict(quick='N <= 5 items (4 for the v//3 predicate and nested contexts), any integers; predicates v%3 tuple, v%2 string, v//3 tuple; contexts root, group_by(mod2), roll(2,2), roll(3,1), split',
+                thorough='N <= 7 (root), N <= 5 nested; same predicates and contexts'),
     outside='longer streams except through the one-step form; predicates with side effects or raising; error (OnErrorMux) closing path beyond the one-step form',
     assumptions=['reference interpreter vp/refsem.py transcribes the property statement', 'synchronous single-threaded delivery (RxPY immediate scheduling)'],
     stubs=[],
@@ -46,13 +46,14 @@ def runs(p):
     q = dict(p)
     q['desc'] = _desc(p['ctx'], p['pred'], p['inner'])
     q['mode'] = 'per_t'
+    q['unbounded'] = True
     return refdiff(q)
 
 
 def step(p):
     """one OnNextMux on split_mux from an arbitrary stored predicate value"""
-    from vp.catalog import KM
-    pred = KM[p['pred']]
+    from vp.catalog import PRED
+    pred = PRED[p['pred']]
 
     def body(a):
         has, cur, v = a
@@ -78,9 +79,11 @@ FAMILIES = {'runs': runs, 'step': step}
 def obligations(tier, seed):
     obs = []
     q = tier == 'quick'
-    nmax = 4 if q else 6
+    nmax = 5 if q else 7
     for pred in ('tup3', 'str2', 'div3'):
         for n in range(0, nmax + 1):
+            if pred == 'div3' and n > (4 if q else 5):
+                continue
             obs.append(Ob(PROP, 'runs', dict(ctx='root', pred=pred, inner='to_list', n=n), budget=300 if q else 900,
                           bound=dict(items=n, values='any int', pred=pred)))
     for ctx in ('group', 'roll22', 'roll31', 'split', 'split_in'):
